@@ -108,6 +108,7 @@ type World struct {
 	StopOn     string // property whose first violation stops the run ("" = never stop early, "*" any)
 	NameCheckRelevant bool
 	DeepReads bool
+	DeepRefsFor bool
 }
 
 func NewWorld(spec *RunSpec, sim *simrt.Sim) *World {
@@ -616,6 +617,10 @@ func (w *World) modelReplace(prev, v *Version, cr *CallRec, ev *simrt.Event) {
 		return
 	}
 	cr.Replaces++
+	w.probe("compaction-commit")
+	if kind == OpExpire {
+		w.probe("expire-commit")
+	}
 	m := prev.Model
 	if kind == OpExpire && cr.Spec != nil && cr.Spec.Exp != nil {
 		m = prev.Model.Clone()
